@@ -9,9 +9,13 @@ import (
 var _ = vReg("C08_Iterators", C08_Iterators)
 
 // c08Expected returns the pool indices the model yields for [start,end) (or <= end) in direction asc.
-// si/ei are pool indices of the bounds (-1 = nil bound).
+// si/ei are pool indices of the bounds (-1 = nil bound, -2 = empty non-nil bound: as a start it is
+// below every key, as an end nothing is below it — and only the empty key, never stored, equals it).
 func c08Expected(m *vModel, n, si, ei int, asc, inclusive bool) []int {
 	var out []int
+	if ei == -2 {
+		return out
+	}
 	for i := 0; i < n; i++ {
 		if !m.present[i] {
 			continue
@@ -85,14 +89,21 @@ func C08_Iterators() {
 		}
 	}
 	// bounds
-	si := vChoice("start", n+1) - 1
-	ei := vChoice("end", n+1) - 1
+	si := vChoice("start", n+2) - 2
+	ei := vChoice("end", n+2) - 2
+	if ei == -2 && si != -1 && vTier() != "thorough" {
+		vStop() // quick tier: the empty end bound is combined with the nil start only
+	}
 	var start, end []byte
 	if si >= 0 {
 		start = h.p.keys[si]
+	} else if si == -2 {
+		start = []byte{}
 	}
 	if ei >= 0 {
 		end = h.p.keys[ei]
+	} else if ei == -2 {
+		end = []byte{}
 	}
 	asc := vChoice("asc", 2) == 0
 	switch vChoice("kind", 6) {
